@@ -73,10 +73,13 @@ BOUNDS = {
              "maps BEFORE residual_map/chi_squared/log_likelihood/log_evidence/figure_of_merit; and statistics first, derived maps next, statistics again), "
              "every read compared with its definition, and afterwards dataset.data / dataset.noise_map / model_data must still equal their input terms; "
              "all masks of shapes with <= 4 pixels, both modes, data of either sign, sky symbolic (zero and non-zero branch), without inversion and "
-             "(<= 3 pixels) with the object lists U1R1 / R1M1",
+             "(<= 3 pixels) with the object lists U1R1 / R1M1. In-place updates between reads: on one fit object the statistics are read, then "
+             "every unmasked entry of dataset.noise_map (resp. dataset.data, resp. the model image) is overwritten in place through the structure's "
+             "__setitem__ with fresh symbolic values (new noise > 0), then every statistic is read again and must follow its definition for the new "
+             "contents; all masks of 1x2, 1x3, 2x2, both modes, sky symbolic, without inversion and with the object list R1M1",
     "thorough": "same, shapes additionally 2x4,4x2,1x7,2x5,3x4 for the fit statistics (residual-flux-fraction <= 10 pixels incl. 3x3, signal-to-noise <= 6 pixels, "
                 "fit_util <= 10 pixels); evidence additionally for object lists R3,M2,U2M2,R2U2,U1R1N1M1,M2R2,R2R1,M1M2,U2M1U1,R1M1R1,U1M3U1,M1U2R1,N2R1 and masks of 2x3; read-order cases additionally 1x4 (both modes) and "
-                "2x3 (slim mode), with inversion up to 4 pixels",
+                "2x3 (slim mode), with inversion up to 4 pixels; in-place update cases additionally 2x3",
 }
 OUTSIDE = [
     "shapes / parameter counts beyond the bounds",
@@ -773,8 +776,97 @@ def case_order(ctx, H, W, native, order, config):
     _run(ctx, body_order, inputs, {"H": H, "W": W, "native": native, "order": order, "config": config}, validate_every=8)
 
 
+# ---------------------------------------------------------------------------- case 6: in-place updates between reads
+
+_UPD_READS = ("residual_map", "normalized_residual_map", "chi_squared_map", "chi_squared", "reduced_chi_squared",
+              "noise_normalization", "log_likelihood", "log_likelihood_with_regularization", "log_evidence", "figure_of_merit")
+
+
+def _ref_stats(dd, nn, mm, ev_extra):
+    """definitions over the unmasked pixel lists; ev_extra = (s^T H s, logdet(F+H)_R, logdet H_R) or None"""
+    res = [a - b for a, b in zip(dd, mm)]
+    chi = [(r / q) * (r / q) for r, q in zip(res, nn)]
+    chi2 = _sum(chi)
+    norm = _sum([_log(TWO_PI * q * q) for q in nn])
+    like = -(chi2 + norm) / 2
+    ref = {"residual_map": res, "normalized_residual_map": [r / q for r, q in zip(res, nn)], "chi_squared_map": chi,
+           "chi_squared": chi2, "reduced_chi_squared": chi2 / len(dd), "noise_normalization": norm, "log_likelihood": like,
+           "figure_of_merit": like}
+    if ev_extra is not None:
+        reg_term, ld_fh, ld_h = ev_extra
+        ref["log_likelihood_with_regularization"] = -(chi2 + reg_term + norm) / 2
+        ref["log_evidence"] = -(chi2 + reg_term + ld_fh - ld_h + norm) / 2
+        ref["figure_of_merit"] = ref["log_evidence"]
+    return ref
+
+
+def body_update(inp, H, W, native, which, config):
+    """read the statistics, overwrite the unmasked entries of dataset.noise_map / dataset.data / the model IN PLACE through
+    the structure's own __setitem__, read again: every statistic must follow its definition for the NEW contents"""
+    inv, ev_extra = None, None
+    if config:
+        objs = _parse_objs(config)
+        P = sum(k for _, k in objs)
+        Fm, Hm = _sym_matrix(inp["F"], P), _sym_matrix(inp["Hb"], P)
+        sv = list(np.asarray(inp["s"], dtype=object).reshape(P))
+        inv = _make_inversion(objs, Hm, Fm, sv, _is_mapper(config))
+        R, Hfull, o = [], [[0.0] * P for _ in range(P)], 0
+        for reg, k in objs:
+            if reg:
+                R += list(range(o, o + k))
+                for i in range(k):
+                    for j in range(k):
+                        Hfull[o + i][o + j] = Hm[o + i][o + j]
+            o += k
+        ev_extra = (_sum([sv[i] * Hfull[i][j] * sv[j] for i in R for j in R]),
+                    _logdet([[Fm[i][j] + Hfull[i][j] for j in R] for i in R]), _logdet([[Hfull[i][j] for j in R] for i in R]))
+    mask, pos, fit = _make_fit(inp, H, W, native, inversion=inv)
+    dd, nn, mm = _ref_pixels(inp, H, W, pos)
+    new = np.asarray(inp["new"], dtype=object).reshape(H, W)
+    A, E = {}, {}
+
+    def read(tag, ref):
+        for name in _UPD_READS:
+            if name not in ref:
+                continue
+            r = hx.attempt(lambda: getattr(fit, name))
+            r = _on_unmasked(r, mask, native) if name.endswith("_map") else _scalar(r)
+            A["%s:%s" % (tag, name)] = list(r) if isinstance(r, list) else r
+            E["%s:%s" % (tag, name)] = ref[name]
+
+    read("before", _ref_stats(dd, nn, mm, ev_extra))
+    target = {"noise": fit.dataset.noise_map, "data": fit.dataset.data, "model": fit.model_data}[which]
+    for k, p in enumerate(pos):
+        target[p if native else k] = new[p]
+    nv = [new[p] for p in pos]
+    sky = inp["sky"]
+    if which == "noise":
+        nn = nv
+    elif which == "data":
+        dd = [v - sky for v in nv]
+    else:
+        mm = nv
+    read("after", _ref_stats(dd, nn, mm, ev_extra))
+    return A, E
+
+
+def case_update(ctx, H, W, native, which, config):
+    mask, inputs = _mask_and_inputs(ctx, H, W)
+    inputs["new"] = V.real_array("new", (H, W))
+    if which == "noise":
+        for p in _positions(mask):
+            ctx.assume(inputs["new"][p].t > 0)
+    if config:
+        P = sum(k for _, k in _parse_objs(config))
+        inputs["F"] = V.real_array("F", (P, P))
+        inputs["Hb"] = V.real_array("Hb", (P, P))
+        inputs["s"] = V.real_array("s", (P,))
+        _assume_spd(ctx, inputs, config)
+    _run(ctx, body_update, inputs, {"H": H, "W": W, "native": native, "which": which, "config": config}, validate_every=8)
+
+
 BODIES = {"case_fit": body_fit, "case_snr": body_snr, "case_rff": body_rff, "case_util": body_util, "case_evidence": body_evidence,
-          "case_order": body_order}
+          "case_order": body_order, "case_update": body_update}
 
 CONFIGS_Q = ["M1", "R2", "U1", "U1N1", "M2U1", "U1M2", "R1M2", "M1R2", "U1M2U1", "R1U1M1", "U1N1R2", "M1U1R1U1", "R1N1"]
 CONFIGS_T = CONFIGS_Q + ["R3", "M2", "U2M2", "R2U2", "U1R1N1M1", "M2R2", "R2R1", "M1M2", "U2M1U1", "R1M1R1", "U1M3U1", "M1U2R1", "N2R1"]
@@ -807,6 +899,11 @@ def cases(tier):
                 if n <= (3 if quick else 4):
                     out.append(("case_order", {"H": H, "W": W, "native": native, "order": order, "config": "U1R1" if order == "derived_first" else "R1M1"},
                                 {"split": 0 if n < 4 else 3}))
+    for (H, W) in [(1, 2), (1, 3), (2, 2)] + ([] if quick else [(2, 3)]):
+        for native in (False, True):
+            for which in ("noise", "data", "model"):
+                for config in (None, "R1M1"):
+                    out.append(("case_update", {"H": H, "W": W, "native": native, "which": which, "config": config}))
     for config in (CONFIGS_Q if quick else CONFIGS_T):
         for native in (False, True):
             for (H, W) in ([(2, 2)] if quick else [(2, 2), (2, 3)]):
